@@ -7,6 +7,8 @@ package choice
 
 import (
 	"encoding/binary"
+	"io"
+	"strconv"
 	"math/rand/v2"
 )
 
@@ -45,6 +47,9 @@ type Stream struct {
 	Rec        []uint64 // values handed out, in order
 	Labels     []string // only kept when KeepLabels
 	KeepLabels bool
+	// Sink, when set, receives every value as it is handed out (one decimal per
+	// line, unbuffered): the record survives a process that dies mid-run.
+	Sink io.Writer
 }
 
 func New(seed uint64) *Stream {
@@ -72,6 +77,9 @@ func (s *Stream) Draw(label string, n int) int {
 		}
 	}
 	s.Rec = append(s.Rec, v)
+	if s.Sink != nil {
+		_, _ = s.Sink.Write([]byte(strconv.FormatUint(v, 10) + "\n"))
+	}
 	if s.KeepLabels {
 		s.Labels = append(s.Labels, label)
 	}
